@@ -230,15 +230,15 @@ type sysRun struct {
 
 	// exhaustive fault placement: the k-th faultable call of the scheduler (before quiescence) gets the planned fault
 	userHookFaults bool // exploration only (-user-hook-faults): the hook's nested GetNext may fail during user mutations too
-	planned bool
-	plan    map[int]int // call number -> 1 error without effect, 2 error after effect, 3 failure of the hook's nested GetNext
-	callNo  int
-	kinds   []string // kind of every faultable call seen before quiescence
+	planned        bool
+	plan           map[int]int // call number -> 1 error without effect, 2 error after effect, 3 failure of the hook's nested GetNext
+	callNo         int
+	kinds          []string // kind of every faultable call seen before quiescence
 
-	vmode bool
-	scrib bool
-	ended bool
-	cg    *cronGen
+	vmode   bool
+	scrib   bool
+	ended   bool
+	cg      *cronGen
 	timerCh func() <-chan time.Time
 }
 
@@ -315,7 +315,7 @@ func stateTerm(st scheduler.StepState) string {
 		var out string
 		_ = st.Match(scheduler.StepResultHandler{
 			TimerUpdateError: func(error) error { return nil }, AwaitingNext: func(error) error { return nil },
-			NextTask: func(def.Task, error) error { return nil },
+			NextTask:    func(def.Task, error) error { return nil },
 			DispatchErr: func(t def.Task, err error) error { out = "(SDispatchErr " + cq.Task(t) + ")"; return nil },
 			Dispatched:  func(string) error { return nil }, TaskDone: func(string, error, error) error { return nil },
 		})
